@@ -115,9 +115,8 @@ macro_rules! dbus_variant_sig_unmarshal {
                     return Ok(Self::$name(v));
                 }
                 )+
-                $crate::wire::validate_raw::validate_marshalled(
-                    ctx.byteorder, 0, ctx.remainder(), &sig
-                ).map_err(|e| e.1)?;
+                // validate and skip the value that belongs to the unknown signature
+                ctx.sub_context_for_value(&sig)?;
 
                 Ok(Self::Catchall(sig))
             }
